@@ -35,7 +35,7 @@ class HedSchemaGroup(HedSchemaBase):
             raise HedFileError(HedExceptions.BAD_PARAMETERS, "Empty list passed to HedSchemaGroup constructor.",
                                filename=self.name)
         schema_prefixes = [hed_schema._namespace for hed_schema in schema_list]
-        if len(set(schema_prefixes)) != len(schema_prefixes):
+        if len({prefix.casefold() for prefix in schema_prefixes}) != len(schema_prefixes):
             raise HedFileError(HedExceptions.SCHEMA_DUPLICATE_PREFIX,
                                "Multiple schema share the same tag name_prefix.  This is not allowed.",
                                filename=self.name)
